@@ -18,6 +18,8 @@ import runlib
 import execlib
 import popgen
 from props.c06 import unbound_flags
+import stampview
+import vlib
 
 LEVEL = "translation_validation"
 
@@ -106,6 +108,8 @@ def run(ctx):
              "paired_executions": 0, "plain_fails_too": 0, "plain_wrong_too": 0, "plain_rejected": 0, "ranks_renamed": nren}
     bad = 0
     static_bad = []
+    certs = []
+    stats.update({"stamp_structure_unrecognized": 0, "stamp_certified": 0, "stamp_certificate_rejected_not_well_ordered": 0})
     for k, it in enumerate(pops):
         a, b = res[2 * k], res[2 * k + 1]
         sts = list(it["spacetimes"].values()) if "spacetimes" in it else [it["spacetime"]]
@@ -137,6 +141,12 @@ def run(ctx):
             lo = (it["mapping"].get("loop-order") or {}).get(o) or loop
             wo = wo and well_ordered(lo)
         stats["well_ordered"] += 1 if wo else 0
+        # per-program certificate for the third clause (Proofs/StampCert.v): the stamp structure read off the text
+        try:
+            for v in stampview.views(text):
+                certs.append((k, wo, stampview.coq_term(v)))
+        except stampview.Unrecognized:
+            stats["stamp_structure_unrecognized"] += 1      # slip counters, flattened ranks: judged by execution only
         paired = it["kind"].startswith(("affine", "cascade"))
         nin = 1
         differs = None
@@ -252,6 +262,18 @@ def run(ctx):
                       "with the display statements removed the program differs from the one compiled without a spacetime (line %d: `%s` vs `%s`); unbound positions: %s; 12 paired executions agree"
                       % (differs[0], differs[1], differs[2], displaystrip.unbound_positions(text)),
                       {"yaml": it["yaml"], "text": text, "difference": differs, "obligation": "displaystrip.computation(with) == displaystrip.computation(without)"}, no_input=True)
+    # the certificate decided by the kernel: accepted => by C16_stamp_certificate_sound_partial no two iterations of that nest share a stamp
+    verdicts = vlib.coq_eval_lines("c16cert", ["TV.Proofs.StampCert"], "", ["(if %s then \"T\" else \"F\")%%string" % t for _, _, t in certs]) if certs else []
+    for (k, wo, t), v in zip(certs, verdicts):
+        if v == "T":
+            stats["stamp_certified"] += 1
+        elif not wo:
+            stats["stamp_certificate_rejected_not_well_ordered"] += 1
+        elif k not in failed_items:
+            bad += 1
+            ctx.violation({"kind": "stamp-certificate-rejected"},
+                          "levels are looped outermost-to-innermost and every loop rank is stamped, yet the emitted stamps do not meet the hypotheses of the injectivity theorem (%s): a loop rank is missing from the spacetime tuple or a relative coordinate subtracts a level bound by a later loop; the executions of this program showed no duplicate stamp" % t,
+                          {"yaml": pops[k]["yaml"], "certificate": t, "obligation": "stamp_cert_okb (coq/Proofs/StampCert.v) = true for every well-ordered fully stamped program"}, no_input=True)
     distinct_p = len(set(c.text for c in cases))
     ctx.coverage.update({
         "programs": distinct_p, "executions": len(cases), "disagreements_checked": bad, "evaluations": len(cases), "distinct_nontrivial": distinct_p,
